@@ -58,6 +58,9 @@ def check(run, repo, world):
     _atx(run, repo, world, folder)
     _legacy(run, repo, world, folder)
     _seq(run, repo, world, folder)
+    # reply decoding (status code -> outcome tables), shared with C16
+    from .C16 import _check_stat
+    _check_stat(run, repo, world, folder)
 
 
 def _refusal(fn, test_texts, exc):
@@ -117,48 +120,62 @@ def _tridonic(run, repo, world, folder):
                                              packs[0].args] if packs else None),
            where(mod, cmdfn))
     o, sfn = _m(world, Q, "_send_raw")
-    calls = [x for x in call_sites(sfn) if unparse(x.func) == "self._cmd"]
-    ok = len(calls) == 1
-    detail = ""
-    if ok:
-        cc = calls[0]
-        kw = {k.arg: k.value for k in cc.keywords}
-        cmdv = _fold(folder, o, cc.args[0])
-        ctrl = kw.get("ctrl")
-        ctrl_ok = isinstance(ctrl, ast.IfExp) and unparse(ctrl.test) == \
-            "command.sendtwice" and _fold(folder, o, ctrl.body) == \
-            sp["ctrl_sendtwice"] and _fold(folder, o, ctrl.orelse) == 0
-        frame_ok = "frame" in kw and unparse(kw["frame"]) == \
-            "frame.pack_len(4)"
-        mode_ok = "mode" in kw and unparse(kw["mode"]) == \
-            "self._command_mode(frame)"
-        ok = cmdv == sp["cmd_send"] and ctrl_ok and frame_ok and mode_ok \
-            and unparse(cc.args[1]) == "seq"
-        detail = "cmd=%s ctrl_ok=%s frame_ok=%s mode_ok=%s" % (
-            cmdv, ctrl_ok, frame_ok, mode_ok)
-    run.ob("R-WIRE-TRIDONIC", Q + "._send_raw#packet", ok,
-           "send packet must be _cmd(SEND=0x12, seq, ctrl=0x20 iff "
-           "sendtwice, mode=_command_mode(frame), frame=frame.pack_len(4)): "
-           + detail, where(mod, sfn))
-    o, mfn = _m(world, Q, "_command_mode")
+    from ..wireval import (WireEval, CmdObj, SelfObj, FrameObj, Sym,
+                           Unknown as WUnknown, require_known)
     table = {}
-    for n in ast.walk(mfn):
-        if isinstance(n, ast.If) and isinstance(n.test, ast.Compare) and \
-                unparse(n.test.left) == "len(frame)":
-            v = _fold(folder, o, n.test.comparators[0])
-            r = [s for s in n.body if isinstance(s, ast.Return)]
-            if r:
-                table[str(v)] = _fold(folder, o, r[0].value)
+    o, mfn = _m(world, Q, "_command_mode")
+    for bits in (8, 16, 24, 20, 32):
+        case = {"nbytes": (bits + 7) // 8, "nbits": bits, "sendtwice": False}
+        r = WireEval(world, folder, c, case).run(
+            mfn, {"frame": FrameObj(case["nbytes"], bits)})
+        if r[0] == "return":
+            if isinstance(r[1], WUnknown):
+                raise AnalysisError("tridonic._command_mode could not be "
+                                    "evaluated for %d bits (%r)" % (bits,
+                                                                   r[1]))
+            table[str(bits)] = r[1]
     run.ob("R-WIRE-TRIDONIC", Q + "._command_mode", table ==
            sp["mode_by_bits"], "mode codes %s, protocol %s" % (
                table, sp["mode_by_bits"]), where(mod, mfn),
            sample={"rule": "R-WIRE-TRIDONIC", "mode_by_bits": table})
-    run.ob("R-WIRE-TRIDONIC", Q + "._send_raw#refusal",
-           _refusal(sfn, ["len(frame) not in (16, 24)"],
-                    "UnsupportedFrameTypeError") and unparse(sfn.body[0]) ==
-           "frame = command.frame",
-           "frames other than 16/24 bit must be refused before writing",
-           where(mod, sfn))
+    for bits in (8, 16, 24, 20, 32):
+        for tw in (False, True):
+            nb = (bits + 7) // 8
+            case = {"nbytes": nb, "nbits": bits, "sendtwice": tw,
+                    "response": None}
+            r = WireEval(world, folder, c, case).run(
+                sfn, {"self": SelfObj(c), "command": CmdObj(case)})
+            if bits not in sp["supported_bits"]:
+                run.ob("R-WIRE-TRIDONIC", Q + "._send_raw#refusal",
+                       r[0] == "raise", "a %d-bit frame must be refused "
+                       "before anything is written, got %r" % (bits, r),
+                       where(mod, sfn), trivial=True)
+                continue
+            if r[0] != "write":
+                run.ob("R-WIRE-TRIDONIC", Q + "._send_raw#packet", False,
+                       "nothing is written for a %d-bit frame: %r" % (bits,
+                                                                      r),
+                       where(mod, sfn))
+                continue
+            t = list(r[1][0])
+            require_known(t, Q + "._send_raw", allow=(1,))
+            b = [Sym("b%d" % k) for k in range(nb)]
+            want = [sp["cmd_send"], None,
+                    sp["ctrl_sendtwice"] if tw else 0,
+                    sp["mode_by_bits"][str(bits)]] + [0] * (4 - nb) + b + \
+                [0, 0, 0] + [0] * 53
+            got = [None if (i_ == 1) else x for i_, x in enumerate(t)]
+            run.ob("R-WIRE-TRIDONIC", Q + "._send_raw#packet",
+                   len(t) == sp["packet_size"] and got == want and
+                   not isinstance(t[1], int),
+                   "the %d-bit%s packet is %s...; the protocol wants [SEND="
+                   "0x12, seq, ctrl=0x20 iff send-twice, mode, frame right-"
+                   "aligned in 4 bytes, dtr, prio, devtype = 0] padded to "
+                   "64 bytes (%s...)" % (bits, " send-twice" if tw else "",
+                                         t[:11], want[:11]), where(mod, sfn),
+                   sample={"rule": "R-WIRE-TRIDONIC", "bits": bits,
+                           "packet_head": [repr(x) for x in t[:11]]}
+                   if (bits, tw) == (24, True) else None)
     # frame bytes of observed reports: ForwardFrame(n, raw_frame) uses the
     # 4-byte field right-aligned
     o, bfn = _m(world, Q, "_bus_watch")
@@ -215,70 +232,87 @@ def _luba(run, repo, world, folder):
     mod = repo.mod(SER)
     P = SER + ".DriverLubaRs232.LubaProtocol"
     o, fn = _m(world, P, "send_dali_command")
-    lit = _list_literal(fn, "tx_ints")
-    if lit is None:
-        raise AnalysisError("tx_ints literal vanished from %s" % P)
-    el = lit.elts
-    vals = [_fold(folder, o, e) for e in el]
-    n_payload = len(el) - 4     # start, cmd, len ... checksum
-    ok = len(el) == len(sp["layout"]) and vals[0] == sp["start"] and \
-        vals[1] == sp["cmd_add_frame"] and vals[2] == n_payload == \
-        sp["payload_length"] and vals[3] == 0 and \
-        unparse(el[4]) == "8 * len(dali_ints)" and \
-        unparse(el[5]) == "luba_mode" and \
-        [unparse(e) for e in el[6:9]] == [
-            "dali_ints[0]", "dali_ints[1]",
-            "0 if len(dali_ints) == 2 else dali_ints[2]"] and \
-        vals[9] == 0 and isinstance(el[10], ast.Constant) and \
-        el[10].value is None
-    run.ob("R-WIRE-LUBA", P + ".send_dali_command#template", ok,
-           "frame template %s does not match layout %s (length literal %s, "
-           "payload elements %d)" % ([unparse(e)[:24] for e in el],
-                                     sp["layout"], vals[2], n_payload),
-           where(mod, lit),
-           sample={"rule": "R-WIRE-LUBA", "template": [
-               unparse(e)[:40] for e in el]})
-    # every LUBA frame literal: length literal == payload element count
+    from ..wireval import WireEval, CmdObj, SelfObj, Sym, xor
+    cls = world.cls(P)
+    ncase = 0
+    prios = set()
+    for nb in (1, 2, 3, 4):
+        for tw in (False, True):
+            for (dapc, std, resp) in ((True, False, None),
+                                      (False, True, None),
+                                      (False, True, "R"),
+                                      (False, False, None),
+                                      (False, False, "R")):
+                case = {"nbytes": nb, "sendtwice": tw, "response": resp,
+                        "is_DAPC": dapc, "is__StandardCommand": std}
+                r = WireEval(world, folder, cls, case).run(
+                    fn, {"self": SelfObj(cls), "tx": CmdObj(case)})
+                ncase += 1
+                key = "%d bytes%s%s" % (nb, ", twice" if tw else "",
+                                       ", DAPC" if dapc else "")
+                if 8 * nb not in sp["supported_bits"]:
+                    run.ob("R-WIRE-LUBA", P + ".send_dali_command#refusal",
+                           r[0] == "raise", "a %d-bit frame must be refused, "
+                           "got %r" % (8 * nb, r), where(mod, fn),
+                           trivial=True)
+                    continue
+                if r[0] != "write":
+                    run.ob("R-WIRE-LUBA", P + ".send_dali_command#template",
+                           False, "no frame is written for %s: %r" % (key, r),
+                           where(mod, fn))
+                    continue
+                t = list(r[1][0])
+                from ..wireval import require_known
+                require_known(t, P + ".send_dali_command")
+                b = [Sym("b%d" % k) for k in range(nb)]
+                want_head = [sp["start"], sp["cmd_add_frame"],
+                             sp["payload_length"], 0, 8 * nb]
+                mode = t[5] if len(t) > 5 else None
+                data = (b + [0, 0, 0, 0])[:4]
+                chk = None
+                if len(t) >= 3 and not any(x is None for x in t[1:-1]):
+                    chk = 0
+                    for x in t[1:-1]:
+                        chk = xor(chk, x)
+                ok = len(t) == len(sp["layout"]) and t[:5] == want_head \
+                    and t[6:10] == data and t[-1] == chk and \
+                    t[2] == len(t) - 4 and isinstance(mode, int) and \
+                    (mode & sp["mode_sendtwice_bit"] != 0) == tw and \
+                    (mode & 0x78) == 0 and (mode & 7) in sp["priority_values"]
+                if isinstance(mode, int):
+                    prios.add(mode & 7)
+                run.ob("R-WIRE-LUBA", P + ".send_dali_command#template", ok,
+                       "for %s the frame written is %s; the protocol wants "
+                       "%s + [mode: priority | 0x80 iff send-twice] + %s + "
+                       "[XOR of bytes 1..n-2] with the length byte equal to "
+                       "the payload size" % (key, t, want_head, data),
+                       where(mod, fn),
+                       sample={"rule": "R-WIRE-LUBA", "case": key,
+                               "template": [repr(x) for x in t]}
+                       if (nb, tw, dapc) == (3, True, False) else None)
+    run.count(ncase)
+    run.ob("R-WIRE-LUBA", P + ".send_dali_command#mode",
+           prios == set(sp["priority_values"]),
+           "priorities used %s, protocol %s" % (sorted(prios),
+                                                sp["priority_values"]),
+           where(mod, fn))
+    # the other LUBA frames: length byte == payload size, checksum span
     for m in ("send_device_info_query", "send_device_settings"):
         o2, f2 = _m(world, P, m)
-        l2 = _list_literal(f2, "tx_ints")
-        if l2 is None:
-            continue
-        v2 = [_fold(folder, o2, e) for e in l2.elts]
+        case = {"nbytes": 2, "sendtwice": False}
+        r = WireEval(world, folder, cls, case).run(f2, {"self": SelfObj(cls)})
+        if r[0] != "write":
+            raise AnalysisError("%s.%s writes nothing the evaluator can "
+                                "follow: %r" % (P, m, r))
+        t = list(r[1][0])
+        chk = 0
+        for x in t[1:-1]:
+            chk = xor(chk, x)
         run.ob("R-WIRE-LUBA", "%s.%s#length" % (P, m),
-               v2[0] == sp["start"] and v2[2] == len(l2.elts) - 4,
-               "length literal %s but %d payload elements" % (
-                   v2[2], len(l2.elts) - 4), where(mod, l2))
-    t = ast.unparse(fn)
-    src = [unparse(n) for n in ast.walk(fn) if isinstance(n, (ast.Assign,
-                                                              ast.AugAssign))]
-    ok_mode = "luba_mode = 0" in src and "luba_mode |= priority" in src and \
-        "luba_mode |= 128 if tx.sendtwice else 0" in src
-    prios = sorted(_fold(folder, o, n.value) for n in ast.walk(fn)
-                   if isinstance(n, ast.Assign) and unparse(
-                       n.targets[0]) == "priority")
-    run.ob("R-WIRE-LUBA", P + ".send_dali_command#mode", ok_mode and
-           prios == sp["priority_values"] and sp["mode_sendtwice_bit"] == 128,
-           "mode byte must be priority | (0x80 iff sendtwice); assignments "
-           "%s, priorities %s" % ([s for s in src if "luba_mode" in s],
-                                  prios), where(mod, fn))
-    dali_ints = [unparse(n.value) for n in ast.walk(fn) if isinstance(
-        n, ast.Assign) and unparse(n.targets[0]) == "dali_ints"]
-    run.ob("R-WIRE-LUBA", P + ".send_dali_command#bytes",
-           dali_ints == ["tx.frame.as_byte_sequence"],
-           "data bytes must be the frame's big-endian byte sequence",
-           where(mod, fn))
-    run.ob("R-WIRE-LUBA", P + ".send_dali_command#refusal",
-           _refusal(fn, ["not len(dali_ints) in (2, 3)",
-                         "len(dali_ints) not in (2, 3)"], "ValueError"),
-           "frames other than 16/24 bit must be refused", where(mod, fn))
-    o, cfn = _m(world, P, "_insert_checksum")
-    body = [unparse(s) for s in cfn.body]
-    a = cfn.args.args[0].arg
-    run.ob("R-WIRE-LUBA", P + "._insert_checksum",
-           body == ["%s[-1] = reduce(xor, %s[1:-1])" % (a, a)],
-           "checksum must be the XOR over command..last payload byte, "
-           "stored in the last slot (got %s)" % body, where(mod, cfn))
+               t[0] == sp["start"] and t[2] == len(t) - 4 and t[-1] == chk,
+               "frame %s: length byte %s for %d payload bytes, checksum %s "
+               "(XOR of bytes 1..n-2 is %s)" % (t, t[2], len(t) - 4, t[-1],
+                                               chk), where(mod, f2))
     # command codes
     lc = world.cls(SER + ".DriverLubaRs232.LubaCmd")
     mem = folder.enum_members(lc)
@@ -311,61 +345,70 @@ def _sci(run, repo, world, folder):
     mod = repo.mod(SER)
     P = SER + ".DriverSCIRS232.SCIRS232Protocol"
     o, fn = _m(world, P, "send_dali_command")
-    lit = _list_literal(fn, "tx_ints")
-    el = lit.elts if lit is not None else []
-    ok = len(el) == sp["frame_length"] and unparse(el[0]) == "control_byte" \
-        and [unparse(e) for e in el[1:4]] == [
-            "dali_ints[0]", "0 if len(dali_ints) < 2 else dali_ints[1]",
-            "0 if len(dali_ints) < 3 else dali_ints[2]"] and isinstance(
-                el[4], ast.Constant) and el[4].value is None
-    run.ob("R-WIRE-SCI", P + ".send_dali_command#template", ok,
-           "frame template %s" % [unparse(e)[:30] for e in el],
-           where(mod, lit or fn),
-           sample={"rule": "R-WIRE-SCI", "template": [unparse(e)[:40]
-                                                      for e in el]})
-    # control byte
-    cb = [n.value for n in ast.walk(fn) if isinstance(n, ast.Assign) and
-          unparse(n.targets[0]) == "control_byte"]
-    ok_cb = len(cb) == 1 and unparse(cb[0]) == (
-        "self._device_settings.monitor_enable << 7 | "
-        "self._device_settings.identify << 6 | "
-        "self._device_settings.echo << 5 | tx.sendtwice << 4")
-    masks = {k: folder.class_attr(o, k) for k in (
-        "CONTROL_ME_MASK", "CONTROL_IDENTIFY_MASK", "CONTROL_ECHO_MASK",
-        "CONTROL_SEND_TWICE_MASK", "CONTROL_MODE_MASK")}
-    run.ob("R-WIRE-SCI", P + ".send_dali_command#control", ok_cb and
-           masks == {"CONTROL_ME_MASK": 0x80, "CONTROL_IDENTIFY_MASK": 0x40,
-                     "CONTROL_ECHO_MASK": 0x20,
-                     "CONTROL_SEND_TWICE_MASK": sp["sendtwice_mask"],
-                     "CONTROL_MODE_MASK": 0x0f},
-           "control byte %s with masks %s" % (unparse(cb[0]) if cb else None,
-                                              masks), where(mod, fn))
+    from ..wireval import WireEval, CmdObj, SelfObj, Sym, xor
+    cls = world.cls(P)
+    import itertools
     modes = {}
-    for n in ast.walk(fn):
-        if isinstance(n, ast.If) and isinstance(n.test, ast.Compare) and \
-                unparse(n.test.left) == "len(dali_ints)" and isinstance(
-                    n.test.ops[0], ast.Eq):
-            k = _fold(folder, o, n.test.comparators[0])
-            for s in n.body:
-                if isinstance(s, ast.AugAssign) and unparse(
-                        s.target) == "control_byte" and isinstance(
-                            s.op, ast.BitOr):
-                    modes[str(8 * k)] = _fold(folder, o, s.value)
+    ncase = 0
+    for nb in (1, 2, 3, 4):
+        for tw in (False, True):
+            for (me, ident, echo) in itertools.product((0, 1), repeat=3):
+                case = {"nbytes": nb, "sendtwice": tw, "response": None,
+                        "settings": {"monitor_enable": me, "identify": ident,
+                                     "echo": echo}}
+                r = WireEval(world, folder, cls, case).run(
+                    fn, {"self": SelfObj(cls), "tx": CmdObj(case)})
+                ncase += 1
+                if 8 * nb not in sp["supported_bits"]:
+                    run.ob("R-WIRE-SCI", P + ".send_dali_command#refusal",
+                           r[0] == "raise", "a %d-bit frame must be refused, "
+                           "got %r" % (8 * nb, r), where(mod, fn),
+                           trivial=True)
+                    continue
+                if r[0] != "write":
+                    run.ob("R-WIRE-SCI", P + ".send_dali_command#template",
+                           False, "no frame written for %d bytes: %r" % (
+                               nb, r), where(mod, fn))
+                    continue
+                t = list(r[1][0])
+                from ..wireval import require_known
+                require_known(t, P + ".send_dali_command")
+                b = [Sym("b%d" % k) for k in range(nb)]
+                ctrl = t[0] if t else None
+                want_ctrl = (me << 7) | (ident << 6) | (echo << 5) | (
+                    sp["sendtwice_mask"] if tw else 0) | sp["mode_by_bits"][
+                        str(8 * nb)]
+                chk = 0
+                for x in t[:-1]:
+                    chk = xor(chk, x) if x is not None else None
+                ok = len(t) == sp["frame_length"] and ctrl == want_ctrl and \
+                    t[1:4] == (b + [0, 0, 0])[:3] and t[-1] == chk
+                if isinstance(ctrl, int):
+                    modes[str(8 * nb)] = ctrl & 0x0f
+                run.ob("R-WIRE-SCI", P + ".send_dali_command#template", ok,
+                       "for a %d-byte frame (twice=%s, settings %d%d%d) the "
+                       "frame written is %s; the datasheet wants control "
+                       "0x%02x, the data bytes %s and the XOR of the first "
+                       "four bytes" % (nb, tw, me, ident, echo, t, want_ctrl,
+                                       (b + [0, 0, 0])[:3]), where(mod, fn),
+                       sample={"rule": "R-WIRE-SCI", "template":
+                               [repr(x) for x in t]}
+                       if (nb, tw, me, ident, echo) == (2, True, 1, 0, 1)
+                       else None)
+    run.count(ncase)
     run.ob("R-WIRE-SCI", P + ".send_dali_command#mode", modes ==
            sp["mode_by_bits"], "mode nibble per frame size %s, protocol %s"
            % (modes, sp["mode_by_bits"]), where(mod, fn),
            sample={"rule": "R-WIRE-SCI", "mode_by_bits": modes})
-    run.ob("R-WIRE-SCI", P + ".send_dali_command#refusal",
-           _refusal(fn, ["not len(dali_ints) in (1, 2, 3)",
-                         "len(dali_ints) not in (1, 2, 3)"], "ValueError"),
-           "frames other than 8/16/24 bit must be refused", where(mod, fn))
-    o, cfn = _m(world, P, "_insert_checksum")
-    a = cfn.args.args[0].arg
-    run.ob("R-WIRE-SCI", P + "._insert_checksum",
-           [unparse(s) for s in cfn.body] == [
-               "%s[-1] = reduce(xor, %s[0:-1])" % (a, a)],
-           "checksum must be the XOR over the first four bytes",
-           where(mod, cfn))
+    masks = {k: folder.class_attr(o, k) for k in (
+        "CONTROL_ME_MASK", "CONTROL_IDENTIFY_MASK", "CONTROL_ECHO_MASK",
+        "CONTROL_SEND_TWICE_MASK", "CONTROL_MODE_MASK")}
+    run.ob("R-WIRE-SCI", P + "#control-masks",
+           masks == {"CONTROL_ME_MASK": 0x80, "CONTROL_IDENTIFY_MASK": 0x40,
+                     "CONTROL_ECHO_MASK": 0x20,
+                     "CONTROL_SEND_TWICE_MASK": sp["sendtwice_mask"],
+                     "CONTROL_MODE_MASK": 0x0f},
+           "control masks %s" % masks, where(mod, fn), trivial=True)
     sc = world.cls(SER + ".DriverSCIRS232.SCIRS232Code")
     mem = folder.enum_members(sc)
     want = {"STATUS_OK": 0, "STATUS_DALI_NO": 1, "SEND_DALI_8": 2,
